@@ -868,3 +868,59 @@ def ref_sheet(ck, F, rule="REF-SHEET"):
               "stringify passes a Reference whose sheet_index comes from %s to stringify_reference together with displace_data: the corner is "
               "displaced as if it were on sheet 0, whatever sheet the range is on" % sorted(map(str, si)), f, l, sample={"sheet_index_from": sorted(map(str, si))})
     ck.ob(rule, "stringify|reference-sites", n >= 4, "expected at least 4 stringify_reference call sites in stringify, found %d" % n, b.file, b.line)
+
+
+def descriptor_order(ck, F, rule="GRID-GUARD"):
+    """Column descriptors stay sorted and disjoint under delete_columns: a descriptor that starts to the right of the
+    first deleted column still starts at or after it afterwards -- it cannot land left of the deleted block, on top of
+    its left neighbour.  Decided by the zone engine on Model::delete_columns with column_count instantiated to 1, 2 and
+    3 (so that column_end = column + column_count - 1 is linear): at every store into `<new descriptor>.min`, if the
+    state entails column_start < min then it entails column_start <= stored value."""
+    import zones
+    from effects import Program
+    COL = "ironcalc_base::types::Col"
+    b = ck.need(F.one, "model::Model::delete_columns")
+    P = Program(F)
+    names = {b.local_name(i): i for i in range(1, b.nargs + 1)}
+    cs = [l for l in range(len(b.locals)) if b.local_name(l) == "column_start"]
+    mn = [l for l in range(len(b.locals)) if b.local_name(l) == "min"]
+    ck.ob(rule, "delete_columns|anchors", "column_count" in names and len(cs) == 1 and len(mn) >= 1,
+          "delete_columns: column_count / column_start / min not found", b.file, b.line)
+    if "column_count" not in names or len(cs) != 1 or not mn:
+        return
+    cs_t = "_%d" % cs[0]
+    stores = []
+    for bi, si, s in b.stmts():
+        if not place_proj(s["p"]) or s["rv"]["k"] != "use":
+            continue
+        p = b.resolve_place(s["p"], through_named=False)
+        pj = place_proj(p)
+        if pj and pj[-1][0] == "f" and (pj[-1][3], pj[-1][2]) == (COL, "min") and not any(e[0] == "*" for e in pj):
+            stores.append((bi, si, s))
+    ck.ob(rule, "delete_columns|min-stores", len(stores) >= 2, "expected at least two stores into a new descriptor's min, found %d" % len(stores), b.file, b.line)
+    for k in (1, 2, 3):
+        A = zones.Analysis(b, P, F, assume={names["column_count"]: k})
+        for n, (bi, si, s) in enumerate(stores, 1):
+            ok = True
+            checked = 0
+            for kk, zin in A.pstate_in.get(bi, {}).items():
+                z = zin.copy()
+                z.close()
+                for j, st in enumerate(b.blocks[bi]["s"]):
+                    if j == si:
+                        break
+                    A.stmt(z, st)
+                if z.bottom:
+                    continue
+                v = A.lin(z, s["rv"]["o"], "i32")
+                right_of_start = any(z.entails(cs_t, "_%d" % m, -1) for m in mn)
+                if not right_of_start:
+                    continue
+                checked += 1
+                if v is None or not z.entails(cs_t, v[0], v[1]):
+                    ok = False
+            f, l = b.loc(bi, si)
+            ck.ob(rule, "delete_columns|count=%d|min-store#%d stays right of the deleted block" % (k, n), ok,
+                  "delete_columns (column_count = %d) can store a descriptor start smaller than column_start for a descriptor that began to the "
+                  "right of it: the descriptor lands on its left neighbour (overlapping / unsorted column descriptors)" % k, f, l,
+                  sample={"column_count": k, "states_checked": checked})
